@@ -2,6 +2,7 @@ import Operon.Lemmas.C15
 import Operon.Lemmas.C15Dfs
 import Operon.Lemmas.C15Life
 import Operon.Gen.CoordAdvanceProbe
+import Operon.Gen.CoordVictimProbe
 /-!
 # C15 — deadlock detection agrees with the real wait-for relation
 
@@ -313,6 +314,22 @@ theorem c15_advance_table_agrees_with_source :
       advanceRow r.1 r.2.1 r.2.2.1 r.2.2.2.1 = (r.2.2.2.2.1, r.2.2.2.2.2.1, r.2.2.2.2.2.2.1, false) ∧
       r.2.2.2.2.2.2.2 = [] := by
   decide
+
+set_option synthInstance.maxSize 1024 in
+/-- **The victim rule is the code's, on a complete grid (table regenerated from the source on every run).**
+    `Gen.victimProbe` (harness/vf/extract/victim_probe.py) is the real `Watchdog.check` EVALUATED on a controller whose
+    three active operations form the recorded ring op1 → op2 → op3 → op1, for every strategy ("priority", "oldest",
+    anything else) x priorities in {0, 1, 2}³ x creation times in {0, 1, 2}³ µs — 2187 rows, all of `victimDomain`:
+    every weak ordering of three keys with all its ties, the two keys crossed.  On every row the model's `wdCheck`
+    (`detectCycle` on the same ring, `selectVictim`, `firstMinBy` = Python's `min`: the first minimal member in cycle
+    order) names exactly the operation the code names in its DEADLOCK event.  A proof by `decide` over the complete
+    finite table; `c15_victim_is_min_priority_or_oldest` is the ∀-statement about the model. -/
+theorem c15_victim_table_agrees_with_source :
+    Gen.victimProbeOk = true ∧
+    Gen.victimProbe.map (fun r => (r.1, r.2.1, r.2.2.1, r.2.2.2.1, r.2.2.2.2.1, r.2.2.2.2.2.1, r.2.2.2.2.2.2.1)) = victimDomain ∧
+    ∀ r ∈ Gen.victimProbe,
+      victimRow r.1 r.2.1 r.2.2.1 r.2.2.2.1 r.2.2.2.2.1 r.2.2.2.2.2.1 r.2.2.2.2.2.2.1 = [r.2.2.2.2.2.2.2] := by
+  decide +kernel
 
 /-- **Phase cycling changes nothing the detector or the victim rule reads.**  After any sequence of `advance`
     calls (whatever the checkpoints answer, also round the cycle M → G0, any number of times), flag / exemption
